@@ -14,11 +14,13 @@ import BctVerif.Props.CoresBwei
 import BctVerif.Props.CoresClust
 import BctVerif.Props.CoresChar
 import BctVerif.Props.CoresEff
+import BctVerif.Props.CoresLoc
 import BctVerif.Props.CoresWalks
 import BctVerif.Props.CoresMod
 import BctVerif.Props.CoresSynth
 import BctVerif.Props.CoresNbs
 import BctVerif.Props.CoresNull
+import BctVerif.Props.CoresLouv
 
 /-!
 # T-gen for core update steps — the link theorems in one place
@@ -40,9 +42,11 @@ modules imported here prove, once and for all extracted values, what a passed ob
 | betw (C08) | `Model/CoreIRBetw.lean`, `Model/CoreIREbc.lean` | `CoresBetw`: `body_spec`, `loop_spec`, `mid_spec`, `back_spec`, `for_spec`, `link_betweenness_bin`; `CoresEbc`: `relax_spec`, `visit_spec`, `settle_spec`, `round_spec`, `fill_spec`, `while_spec`, `dep_spec`, `forBV_spec`, `runBW_spec`, `back_spec`, `src_spec`, `sources_spec`, `link_edge_betweenness_bin` | `Between.binLoop`, `binBack`, `betweennessBin`; `push`, `relaxB`, `settle false`, `bfsLoop`, `fillFront`, `backInner`, `backOuter`, `source false`, `brandes false` |
 | char (C03) | `Model/CoreIRChar.lean` | `CoresChar`: `pre_spec`, `tail_spec`, `meanC_spec`, `rowMax_spec`, `link_charpath` | `Dist.charpath`, `meanExt`, `eccCells`, `eccOf`, `radiusDiameter` |
 | eff (C03) | `Model/CoreIREff.lean` (statement language of `Model/CoreIRBin.lean`) | `CoresEff`: `body_spec`, `loop_spec`, `inner_spec`, `sumExt_offDiag`, `link_efficiency_bin` | `Dist.binLoop`, `binRaw`, `distBin`, `meanInvOff`, `efficiencyBin` |
+| eff, local branch (C03) | `Model/CoreIRLoc.lean` (nested function and statement language of `Model/CoreIRBin.lean`) | `CoresLoc`: `subV_numM`, `binarize_sub`, `finiteInv_distOf`, `invCell_distOf`, `node_spec`, `link_efficiency_bin_local` | `LocalEff.nbrs`, `subMat`, `links`, `core`, `effBinOn`, `effBinNode` (`Dist.distBin` on the neighbourhood) |
 | walks (C18) | `Model/CoreIRWalks.lean` (expressions of `Model/CoreIRClust.lean`) | `CoresWalks`: `pre_spec`, `tail_spec`, `link_pagerank`, `link_pagerank_model`, `solve_diag_unique`, `link_mfpt_model` | `Walks.colDeg`, `prMat`, `prior`, `solves`, `pagerank`; `Walks.transition`, `fundArg`, `isInvOf`, `mfpt` |
 | modq (C02, C07) | `Model/CoreIRMod.lean` (expressions of `Model/CoreIRClust.lean`), `Model/CoreIRPin.lean` | `CoresMod`: `link_mod_und`, `link_mod_dir` (the other routines of the family are source pins without link theorems) | `Modularity.modularityUndGiven`, `modularityDirGiven` |
 | synth (C20) | `Model/CoreIRSynth.lean`, `Model/CoreIRPin.lean` | `CoresSynth`: `triu_diff`, `step_spec`, `loop_spec`, `removeI_spec`, `link_makeringlattice`; `sliceSet_fill`, `fill_fold`, `fillI_eq`, `drawSw_eq`, `accept_spec`, `repair_spec`, `placeAll_spec`, `link_degreesfixed` | `Synth.superDiag`, `band`, `ringFill`, `removeExcess`, `ringLattice`; `Synth.stubs`, `fitTo`, `drawUntried`, `applySwitch`, `repair`, `placeEdge`, `placeAll`, `degreesFixed` |
+| modq, node-moving pass (C02, C07) | `Model/CoreIRLouv.lean` | `CoresLouv`: `link_init_und`, `visit_und`, `pass_of_visit`, `link_pass_und`, `link_init_dir`, `visit_dir`, `link_pass_dir` | `Modularity.undInitLevel`, `dirInitLevel`, `undKern`, `dirKern`, `gainVec`, `argmaxFirst`, `chooseWith` (plain replay), `visit`, `pass` |
 | nullm (C06) | `Model/CoreIRNull.lean`, `Model/CoreIRPin.lean` | `CoresNull`: `innerLoop_spec`, `roundI_spec`, `loopI_spec`, `signI_spec`, `link_null`, `link_null_und`, `link_null_dir` (the four correlations at the end and the callees `randmio_*_signed` are source pins) | `Signed.dealRound`, `dealLoop`, `dealSign`, `writeAsg`, `cellsWhere`, `sortedWeights`, `nullModel` |
 | nbs (C19) | `Model/CoreIRNbs.lean`, `Model/CoreIRPin.lean` | `CoresNbs`: `varOr_cast`, `ss_cast`, `ssd_eq_pairedSS`, `runT2_spec`, `runPair_spec`, `link_tstat` (numbers read as reals, `Real.sqrt`; the rest of `nbs_bct` is a source pin) | `Nbs.exceeds2`, `exceedsP`, `exceeds` (`pooledV`, `pairedSS`, `gtSqrt`, `tnum`) |
 | clust (C09) | `Model/CoreIRClust.lean` | `CoresClust`: `perNode_cell`, `link_cc_bd`, `link_cc_wd`, `link_cc_wu`, `link_cc_bu`, `link_trans_bd`, `link_trans_bu`, `link_trans_wd`, `link_trans_wu` | `Cluster.ccBd`, `ccWd`, `ccWu`, `ccBu`, `transBd`, `transBu`, `transWd`, `transWu` (`perNode`, `gdiv`, `ccFagiolo`, `transFagiolo`) |
